@@ -178,6 +178,7 @@ def opLoopback (j : Json) : P Json := do
   | .error .notReversible => pure (Json.mkObj [("err", .str "ValueError")])
   | .error (.stack _) => pure (Json.mkObj [("err", .str "GraphError")])
   | .error .fieldError => pure (Json.mkObj [("err", .str "FieldError")])
+  | .error .dependency => pure (Json.mkObj [("err", .str "DependencyError")])
   | .ok res =>
     let vals := res.map fun (n, e) =>
       match e with
